@@ -11,7 +11,7 @@ TECH = ('machine-checked proof in Coq 8.16 (Rocq) over an executable Gallina mod
 CLAIMS = {
     'C01': ('full: soundness, completeness and uniqueness of the MNA system w.r.t. the circuit equations, reported directions, and "a valid '
             'network never fails to solve" (completeness of the executable Gauss-Jordan, Theory/Gauss.v); elements.py / network.py / label_mapping.py / '
-            'bias_point_analysis.py regenerated and proved equal to the model (C01c)'),
+            'bias_point_analysis.py (C01c) and the matrix assembly of node_analysis.py (C01d) regenerated and proved equal to the model'),
     'C02': ('full on the model: CircuitSpec of the transformed network <-> declarative PhasorSpec (jwL, 1/(jwC), A*cis(phi) iff within resolution), '
             'RMS = peak/sqrt2, DC = real part at w=0; np.cos/np.sin/np.sqrt enter as oracle values; circuit.py and the DC/complex solution classes '
             'regenerated and proved equal to the model (C02c; equal outcome class always, equal value for two-terminal loads)'),
@@ -34,7 +34,7 @@ CLAIMS = {
             'list function instantiated at binary64 (primitive floats) is run bit for bit against circuit.py, with the carrier-independent membership '
             'theorems (C09b); time/frequency-domain solution classes regenerated and proved equal to the model (C09c)'),
     'C10': ('full: executable model of state_space_matrices and all output rows; ss_augmented; for every s the outputs of C(sI-A)^-1B+D solve the phasor '
-            'network and equal the solver\'s answer (uniqueness); DC gain; dimensions; source order'),
+            'network and equal the solver\'s answer (uniqueness); DC gain; dimensions; source order; state_space_model.py regenerated and proved equal to the model (C10c)'),
     'C11': ('full for the inequality x^T(WA+A^TW)x <= 0 and Re(lambda) <= 0 over an ordered field; the simulated-energy clause depends on '
             'scipy.signal.lsim and is exercised, not modelled'),
     'C12': ('partial: KCL, element laws, i_C = C dv/dt, v_L = L di/dt for EVERY state/input pair (hence every sample whatever the integrator), rest, '
